@@ -430,6 +430,14 @@ func (e *Env) RunBlock(st *Step) {
 		}
 		accNum, seq := e.acctInfo(built.Signer)
 		txb := signTx(built.Signer.Priv, accNum, seq, 5_000_000, built.Msgs...)
+		if op.G > 0 {
+			// a sender that sets its gas limit just below what the transaction needs: it runs out of
+			// gas somewhere near the end of the handler
+			if ok, used, pi := e.R.SimulateGas(txb); pi == nil && ok && used > uint64(op.G)+20_000 {
+				txb = signTx(built.Signer.Priv, accNum, seq, used-uint64(op.G), built.Msgs...)
+				e.fault("F14.gas_limit_just_below_need")
+			}
+		}
 		n := 1 + op.Dup
 		for k := 0; k < n; k++ {
 			if k > 0 {
